@@ -155,7 +155,7 @@ def install_keras2_graph_shims():
   if not hasattr(L, "output_shape"):
     L.output_shape = property(lambda self: [tuple(self.output.shape)] if type(self).__name__ == "InputLayer" else tuple(self.output.shape))
   if not hasattr(L, "input_shape"):
-    L.input_shape = property(lambda self: tuple(self.input.shape))
+    L.input_shape = property(lambda self: [tuple(t.shape) for t in self.input] if isinstance(self.input, (list, tuple)) else tuple(self.input.shape))
   if not hasattr(L, "get_output_at"):
     L.get_output_at = lambda self, i: self.output
   if not hasattr(L, "get_input_at"):
